@@ -21,10 +21,13 @@ Open Scope Z_scope.
 (* ------------------------------------------------------------------ cells and cmp *)
 Inductive cell :=
 | CNone
-| CNum (isfloat : bool) (twice : Z)      (* finite number twice/2; 1 and 1.0 differ only in isfloat *)
+| CNum (isfloat : bool) (scaled : Z)     (* finite number scaled / 2^80 (exact for ints of any size and for floats >= 2^-80 in magnitude); 1 and 1.0 differ only in isfloat *)
 | CNaN (id : N)                          (* a NaN object; id = object identity *)
 | CStr (s : list Z)                      (* code points *)
 | CDate (us : Z).
+
+Definition SCALE : Z := 1208925819614629174706176.     (* 2^80 *)
+Definition cint (n : Z) : cell := CNum false (n * SCALE).
 
 Definition zcmp (a b : Z) : Z := if a <? b then -1 else if b <? a then 1 else 0.
 
@@ -231,13 +234,13 @@ Definition eval_item (t : ctable) (it : item) : option (list cell) :=
   match it with
   | KCol n => col t n
   | KFun (RId a) => col t a
-  | KFun (RIsNone a) => option_map (map (fun c => match c with CNone => CNum false 0 | _ => CNum false 2 end)) (col t a)
+  | KFun (RIsNone a) => option_map (map (fun c => match c with CNone => cint 0 | _ => cint 1 end)) (col t a)
   | KFun (RCoalesce a b) =>
       match col t a, col t b with
       | Some ca, Some cb => Some (map (fun p => match fst p with CNone => snd p | c => c end) (combine ca cb))
       | _, _ => None
       end
-  | KFun (RConst a) => option_map (map (fun _ => CNum false 14)) (col t a)
+  | KFun (RConst a) => option_map (map (fun _ => cint 7)) (col t a)
   end.
 Fixpoint eval_items (t : ctable) (its : list item) : option (list (list cell)) :=
   match its with
